@@ -34,7 +34,7 @@ class RaisesSpec(object):
         self.exc = exc
         self.when = when
         self.iff = iff
-        self.ensures = [(n, e) for n, e in ensures]
+        self.ensures = [tuple(x) if len(x) == 3 else (x[0], x[1], None) for x in ensures]
 
 
 class FnSpec(object):
